@@ -24,6 +24,12 @@ import (
 //	   ERR v=<variant>                            the result carries an error
 //	   err v=<variant>                            Phase() itself returned an error
 //	A panic of the worker goroutine kills the harness process: the driver reports `exit:2`.
+//
+// phaseaa1 <den> <gapopen|d> <gapext|d> <match|_> <mismatch|_> <reverse> <cutend> <code> <orfs> <seq>
+//
+//	The twin of phasent1 for the amino-acid mode (SetTranslate(true, code), the default of `goalign phase`):
+//	the reference ORFs are passed as NUCLEOTIDE sequences, Phase() translates them (frame 0) before
+//	alignAgainstRefsAA aligns them with the 3 (6 with <reverse>) translations of the sequence.  Same answers.
 func atgScores(al interface {
 	SetGapOpenScore(float64)
 	SetGapExtendScore(float64)
@@ -65,7 +71,11 @@ func opAtgAlign(a []string) (res string) {
 		swEnc(al.Seq1Ali()), swEnc(al.Seq2Ali()), btoa(unmod))
 }
 
-func opPhaseNT1(a []string) string {
+func opPhaseNT1(a []string) string { return phaseOne(a, false) }
+
+func opPhaseAA1(a []string) string { return phaseOne(a, true) }
+
+func phaseOne(a []string, translate bool) string {
 	v := swProbe()
 	den := float64(atoi(a[0]))
 	ph := align.NewPhaser()
@@ -74,7 +84,7 @@ func opPhaseNT1(a []string) string {
 	ph.SetMatchCutoff(-1.0)
 	ph.SetReverse(atob(a[5]))
 	ph.SetCutEnd(atob(a[6]))
-	if err := ph.SetTranslate(false, atoi(a[7])); err != nil {
+	if err := ph.SetTranslate(translate, atoi(a[7])); err != nil {
 		return fmt.Sprintf("err-code v=%d", v)
 	}
 	if a[1] != "d" {
@@ -114,4 +124,5 @@ func opPhaseNT1(a []string) string {
 func init() {
 	register("atgalign", opAtgAlign)
 	register("phasent1", opPhaseNT1)
+	register("phaseaa1", opPhaseAA1)
 }
